@@ -163,6 +163,12 @@ func (mediaType *MediaType) Validate(ctx context.Context, opts ...ValidationOpti
 		}
 	}
 
+	for _, name := range componentNames(mediaType.Encoding) {
+		if err := mediaType.Encoding[name].Validate(ctx); err != nil {
+			return fmt.Errorf("invalid encoding %q: %w", name, err)
+		}
+	}
+
 	return validateExtensions(ctx, mediaType.Extensions)
 }
 
